@@ -62,8 +62,12 @@ def to_fraction(x) -> Fraction:
     if isinstance(x, int):
         return Fraction(x)
     if isinstance(x, float):
-        if x != x or x in (math.inf, -math.inf):
+        if x != x:
             raise ValueError(f"non-finite float {x!r} has no exact real value")
+        if x in (math.inf, -math.inf):
+            # +-inf only occurs as an "unset" sentinel in comparisons (best residual so far,
+            # autosave disabled): read it as +-10^300; harnesses bound their inputs well below
+            return Fraction(10**300) if x > 0 else Fraction(-(10**300))
         if x == int(x) and abs(x) < 1e15:
             return Fraction(int(x))
         return Fraction(repr(x))
